@@ -22,23 +22,24 @@ import (
 // ---------------------------------------------------------------- case description (data, replayable)
 
 type caseT struct {
-	Site    string   `json:"site"`            // stage name, used in violation signatures
-	Stage   string   `json:"stage"`           // key into the stage table
-	Cap     int      `json:"cap"`             // capacity of the input channels (fixes output capacities)
-	Par     int      `json:"par,omitempty"`   // fork worker count
-	Mode    string   `json:"mode,omitempty"`  // pure | lift | try
-	N       int      `json:"n,omitempty"`     // Take n / Throttling ops / Join inputs ...
-	Inputs  [][]int  `json:"inputs"`          // planned elements per input, unique non-zero ids
-	FSeed   uint64   `json:"fseed"`           // selects the user functions (images, fan-out, predicate bits, delays)
-	Fail    []int    `json:"fail,omitempty"`  // ids (or indices for sources) on which the user function fails
-	Tick    int64    `json:"tick,omitempty"`  // Emit frequency / Throttling interval, ns
-	Delay   int      `json:"delay,omitempty"` // user-function virtual processing delay family (0 = none)
-	Script  []string `json:"script"`          // environment moves
-	End     string   `json:"end"`             // complete | cancel | none
-	Monoid  string   `json:"monoid,omitempty"`
-	Procs   int      `json:"procs,omitempty"` // GOMAXPROCS for this case (0 = leave)
-	Senders int      `json:"senders,omitempty"`
-	Comment string   `json:"comment,omitempty"`
+	Site        string   `json:"site"`            // stage name, used in violation signatures
+	Stage       string   `json:"stage"`           // key into the stage table
+	Cap         int      `json:"cap"`             // capacity of the input channels (fixes output capacities)
+	Par         int      `json:"par,omitempty"`   // fork worker count
+	Mode        string   `json:"mode,omitempty"`  // pure | lift | try
+	N           int      `json:"n,omitempty"`     // Take n / Throttling ops / Join inputs ...
+	Inputs      [][]int  `json:"inputs"`          // planned elements per input, unique non-zero ids
+	FSeed       uint64   `json:"fseed"`           // selects the user functions (images, fan-out, predicate bits, delays)
+	Fail        []int    `json:"fail,omitempty"`  // ids (or indices for sources) on which the user function fails
+	Tick        int64    `json:"tick,omitempty"`  // Emit frequency / Throttling interval, ns
+	Delay       int      `json:"delay,omitempty"` // user-function virtual processing delay family (0 = none)
+	Script      []string `json:"script"`          // environment moves
+	End         string   `json:"end"`             // complete | cancel | none
+	Monoid      string   `json:"monoid,omitempty"`
+	Procs       int      `json:"procs,omitempty"` // GOMAXPROCS for this case (0 = leave)
+	Senders     int      `json:"senders,omitempty"`
+	Comment     string   `json:"comment,omitempty"`
+	OneProducer bool     `json:"one_producer,omitempty"` // one goroutine serves all inputs in script order (a blocked send delays everything behind it)
 }
 
 // ---------------------------------------------------------------- events
@@ -54,8 +55,10 @@ type event struct {
 // ---------------------------------------------------------------- ports and actors
 
 type cmd struct {
-	op string // send | close | recv | drain
-	v  int
+	op     string // send | close | recv | drain
+	v      int
+	target *port // send/close: the input whose channel is operated on (nil = the actor's own); lets one
+	// producer goroutine serve several inputs in program order
 }
 
 type recvFn func(stop <-chan struct{}) (v any, ok bool, aborted bool)
@@ -64,7 +67,7 @@ type port struct {
 	w       *world
 	name    string
 	isIn    bool
-	send    func(v int, stop <-chan struct{}) (aborted bool) // input ports
+	sendVia func(actor *port, v int, stop <-chan struct{}) (aborted bool) // input ports: send on this channel, performed by the actor goroutine
 	closeF  func()
 	sendNow func(v int) bool // non-blocking send performed by the driver itself (move B)
 	recv    recvFn           // output ports
@@ -90,21 +93,28 @@ type port struct {
 	closedByU   bool // we closed this input
 	closeQueued bool
 	draining    bool
+	afterCancel int // values taken by a drain after the context was cancelled
 }
 
 func (p *port) push(c cmd) {
-	p.mu.Lock()
-	if p.closeQueued && (c.op == "send" || c.op == "close") {
-		p.mu.Unlock()
+	tp := p
+	if c.target != nil {
+		tp = c.target
+	}
+	tp.mu.Lock()
+	if tp.closeQueued && (c.op == "send" || c.op == "close") {
+		tp.mu.Unlock()
 		return // nothing is sent on, or closes, an input the environment already closed
 	}
-	p.queue = append(p.queue, c)
 	if c.op == "send" {
-		p.issued = append(p.issued, c.v)
+		tp.issued = append(tp.issued, c.v)
 	}
 	if c.op == "close" {
-		p.closeQueued = true
+		tp.closeQueued = true
 	}
+	tp.mu.Unlock()
+	p.mu.Lock()
+	p.queue = append(p.queue, c)
 	p.mu.Unlock()
 	select {
 	case p.wake <- struct{}{}:
@@ -139,39 +149,43 @@ func (p *port) run() {
 		if !ok {
 			return
 		}
+		tp := p
+		if c.target != nil {
+			tp = c.target
+		}
 		switch c.op {
 		case "send":
-			p.w.log(p.name, "send-call", c.v)
-			ab, pan := p.trySend(c.v)
+			p.w.log(tp.name, "send-call", c.v)
+			ab, pan := p.trySendOn(tp, c.v)
 			if ab {
 				if p.w.isStopped() {
 					return
 				}
-				p.w.log(p.name, "send-aborted", c.v)
+				p.w.log(tp.name, "send-aborted", c.v)
 				continue
 			}
-			p.mu.Lock()
+			tp.mu.Lock()
 			if pan {
-				p.panicked = append(p.panicked, c.v)
+				tp.panicked = append(tp.panicked, c.v)
 			} else {
-				p.sent = append(p.sent, c.v)
-				p.sentSeq = append(p.sentSeq, p.w.seq.Add(1))
+				tp.sent = append(tp.sent, c.v)
+				tp.sentSeq = append(tp.sentSeq, p.w.seq.Add(1))
 			}
-			p.mu.Unlock()
+			tp.mu.Unlock()
 			if pan {
-				p.w.log(p.name, "send-on-closed", c.v)
+				p.w.log(tp.name, "send-on-closed", c.v)
 			} else {
-				p.w.log(p.name, "send-ret", c.v)
+				p.w.log(tp.name, "send-ret", c.v)
 			}
 		case "close":
 			func() {
 				defer func() { recover() }() // closing a channel golem already closed is not judged here
-				p.closeF()
+				tp.closeF()
 			}()
-			p.mu.Lock()
-			p.closedByU = true
-			p.mu.Unlock()
-			p.w.log(p.name, "close", 0)
+			tp.mu.Lock()
+			tp.closedByU = true
+			tp.mu.Unlock()
+			p.w.log(tp.name, "close", 0)
 		case "recv", "drain":
 			for {
 				v, ok, ab := p.recv(p.w.stop)
@@ -206,18 +220,29 @@ func (p *port) run() {
 				if c.op == "recv" {
 					break
 				}
+				if p.w.cancelFlag.Load() {
+					// a consumer that keeps draining after cancel takes at most postCancelBudget more values:
+					// a stage that never stops would otherwise keep the bubble busy forever (no quiescence)
+					p.mu.Lock()
+					p.afterCancel++
+					over := p.afterCancel > postCancelBudget
+					p.mu.Unlock()
+					if over {
+						break
+					}
+				}
 			}
 		}
 	}
 }
 
-func (p *port) trySend(v int) (aborted, panicked bool) {
+func (p *port) trySendOn(tp *port, v int) (aborted, panicked bool) {
 	defer func() {
 		if r := recover(); r != nil {
 			panicked = true
 		}
 	}()
-	return p.send(v, p.w.stop), false
+	return tp.sendVia(p, v, p.w.stop), false
 }
 
 func toInt(v any) int {
@@ -231,6 +256,8 @@ func toInt(v any) int {
 	}
 	return 0
 }
+
+const postCancelBudget = 200
 
 // snapshot of a port at a quiescent point
 type snap struct {
@@ -275,7 +302,8 @@ type world struct {
 	ctx        context.Context
 	cancelF    context.CancelFunc
 	cancelled  bool
-	cancelSeq  int64 // sequence number taken just before cancel() was called
+	cancelFlag atomic.Bool // same as cancelled, readable by actors
+	cancelSeq  int64       // sequence number taken just before cancel() was called
 	cancelAt   int64
 	start      time.Time
 	stop       chan struct{}
@@ -400,10 +428,10 @@ func (w *world) addIn(capacity int) chan int {
 // addInChan registers a producer for an existing send-side channel.
 func (w *world) addInChan(ch chan<- int) {
 	p := &port{name: "in" + strconv.Itoa(len(w.ins)), isIn: true}
-	p.send = func(v int, stop <-chan struct{}) bool {
-		p.mu.Lock()
-		abort := p.abort
-		p.mu.Unlock()
+	p.sendVia = func(actor *port, v int, stop <-chan struct{}) bool {
+		actor.mu.Lock()
+		abort := actor.abort
+		actor.mu.Unlock()
 		select {
 		case ch <- v:
 			return false
@@ -462,6 +490,7 @@ func (w *world) cancel() {
 	w.cancelSeq = w.seq.Add(1)
 	w.cancelAt = w.now()
 	w.cancelled = true
+	w.cancelFlag.Store(true)
 	w.cancelF()
 	w.log("ctx", "cancel", 0)
 }
@@ -545,7 +574,11 @@ func (w *world) exec(script []string) {
 		switch m[0] {
 		case 'S':
 			if arg < len(w.ins) && nextIdx[arg] < len(w.c.Inputs[arg]) {
-				w.ins[arg].push(cmd{op: "send", v: w.c.Inputs[arg][nextIdx[arg]]})
+				if w.c.OneProducer {
+					w.ins[0].push(cmd{op: "send", v: w.c.Inputs[arg][nextIdx[arg]], target: w.ins[arg]})
+				} else {
+					w.ins[arg].push(cmd{op: "send", v: w.c.Inputs[arg][nextIdx[arg]]})
+				}
 				nextIdx[arg]++
 			}
 		case 'B':
@@ -570,7 +603,11 @@ func (w *world) exec(script []string) {
 			}
 		case 'C':
 			if arg < len(w.ins) {
-				w.ins[arg].push(cmd{op: "close"})
+				if w.c.OneProducer {
+					w.ins[0].push(cmd{op: "close", target: w.ins[arg]})
+				} else {
+					w.ins[arg].push(cmd{op: "close"})
+				}
 			}
 		case 'R':
 			if arg < len(w.outs) {
@@ -611,19 +648,31 @@ func (w *world) exec(script []string) {
 }
 
 // sendRest queues all planned elements not yet commanded, then a close, on every input.
+func (w *world) actorFor(p *port) (*port, *port) {
+	if w.c.OneProducer && len(w.ins) > 0 {
+		return w.ins[0], p
+	}
+	return p, nil
+}
+
 func (w *world) sendRestAndClose() {
 	for i, p := range w.ins {
+		a, t := w.actorFor(p)
 		for k := w.sentPlan[i]; k < len(w.c.Inputs[i]); k++ {
-			p.push(cmd{op: "send", v: w.c.Inputs[i][k]})
+			a.push(cmd{op: "send", v: w.c.Inputs[i][k], target: t})
 		}
 		w.sentPlan[i] = len(w.c.Inputs[i])
-		p.push(cmd{op: "close"})
+	}
+	for _, p := range w.ins {
+		a, t := w.actorFor(p)
+		a.push(cmd{op: "close", target: t})
 	}
 }
 
 func (w *world) closeInputs() {
 	for _, p := range w.ins {
-		p.push(cmd{op: "close"})
+		a, t := w.actorFor(p)
+		a.push(cmd{op: "close", target: t})
 	}
 }
 
